@@ -47,6 +47,9 @@ func verifH_C01_signed_by_device() {
 	} else {
 		if int64(j) != ts-off {
 			verifAssert(post == pre, "accepted_touches_only_its_slot")
+		} else if pre.PowerOutput == 0 {
+			// the comparisons also must not refuse what is acceptable (C20: correct for every clock value)
+			verifAssert(post.PowerOutput != 0, "acceptable_report_is_recorded")
 		}
 		verifAssert(postFile == 0 || postFile == 80, "log_grows_by_one_record_at_most")
 	}
